@@ -252,7 +252,9 @@ func lidx(r *Report, p *Prog, pkgs []string) {
 			continue
 		}
 		env := NewLinEnv(p, fn)
-		env.lenSum = func(c2 *ssa.Function, call2 *ssa.Call, en *LinEnv) ([]*Lin, bool) { return retLenSummary(p, c2, 0, call2, en, 0) }
+		env.lenSum = func(c2 *ssa.Function, call2 *ssa.Call, en *LinEnv) ([]*Lin, bool) {
+			return retLenSummary(p, c2, 0, call2, en, 0)
+		}
 		n := 0
 		for _, b := range fn.Blocks {
 			var facts []Fact
